@@ -9,8 +9,10 @@
      write  script  (one entry per pwrite() call): F = write everything, E = fail (EIO), <n> = write min(n,len) bytes
    each with a tail value used once the listed entries are exhausted (persistent faults).
    Every call is logged on descriptor 1 at once (no buffering: the log must survive a crash):
-     S open <path> <fd|-1>      S flock <fd> <0|-1>     S pwrite <fd> <off> <len> <res>     S close <fd> <0|-1>
-     A file_create <ret>        A file_write <ret>      A file_close                                                  */
+     S open <path> <fd|-1>      S flock <fd> <0|-1> k=<b>     S pwrite <fd> <off> <len> <res> k=<b>     S close <fd> <0|-1> k=<b>
+     A file_create <ret>        A file_write <ret>      A file_close
+   k=<b>: whether the kernel had the descriptor number open when the call was made (fcntl F_GETFD) -- the ground truth
+   the descriptor oracle uses, independent of which calls happen to be interposed.                                     */
 #define _GNU_SOURCE
 #include <errno.h>
 #include <fcntl.h>
@@ -153,6 +155,7 @@ __wrap_flock(int fd, int op)
     if (!shim_on)
         return __real_flock(fd, op);
     int res;
+    int was_open = fcntl(fd, F_GETFD) >= 0;
     if (fd >= 0 && fd < (int)sizeof lock_fails && lock_fails[fd]) {
         lock_fails[fd] = 0;
         res = -1;
@@ -161,7 +164,7 @@ __wrap_flock(int fd, int op)
         res = __real_flock(fd, op);
     }
     int e = errno;
-    shim_log("S flock %d %d\n", fd, res);
+    shim_log("S flock %d %d k=%d\n", fd, res, was_open);
     errno = e;
     return res;
 }
@@ -174,6 +177,7 @@ __wrap_pwrite(int fd, const void* buf, size_t n, off_t off)
     long r = n_pwrite < w_n ? w_script[n_pwrite] : w_tail;
     n_pwrite++;
     ssize_t res;
+    int was_open = fcntl(fd, F_GETFD) >= 0;
     if (r == -2) {
         res = -1;
         errno = EIO;
@@ -203,7 +207,7 @@ __wrap_pwrite(int fd, const void* buf, size_t n, off_t off)
         }
     }
     int e = errno;
-    shim_log("S pwrite %d %lld %zu %zd\n", fd, (long long)off, n, res);
+    shim_log("S pwrite %d %lld %zu %zd k=%d\n", fd, (long long)off, n, res, was_open);
     errno = e;
     return res;
 }
@@ -213,11 +217,12 @@ __wrap_close(int fd)
 {
     if (!shim_on)
         return __real_close(fd);
+    int was_open = fcntl(fd, F_GETFD) >= 0;
     int res = __real_close(fd);
     int e = errno;
     if (fd >= 0 && fd < (int)sizeof lock_fails)
         lock_fails[fd] = 0;
-    shim_log("S close %d %d\n", fd, res);
+    shim_log("S close %d %d k=%d\n", fd, res, was_open);
     errno = e;
     return res;
 }
